@@ -19,7 +19,7 @@ LIST_UNITS = ["src/list.c", "src/safe.c"]
 EXT_UNITS = ["src/extract.c", "src/safe.c"]
 OM = {"out_vformat.4": 90, "out_vformat.0": 8, "out_vformat.1": 8, "out_vformat.2": 8, "out_vformat.3": 8, "out_strlen.0": 57, "out_pad.0": 24,
       "out_str.0": 58, "out_str.1": 57, "out_hex.0": 17, "out_hex.1": 24, "out_hex.2": 17, "lha_arch_vasprintf.0": 65}
-LISTL = {"sym_header_fill.0": 4, "sym_header_fill.1": 6, "unix_permissions_print.0": 10, "os9_permissions_print.0": 8, "safe_output.0": 20,
+LISTL = {"sym_header_fill.0": 4, "sym_header_fill.1": 6, "unix_permissions_print.0": 14, "os9_permissions_print.0": 12, "safe_output.0": 20,
          "last_column.0": 11, "print_list_headings.0": 22, "print_list_headings.1": 11, "print_list_separators.0": 22, "print_list_separators.1": 11,
          "print_columns.0": 11, "print_footers.0": 11, "print_footers.1": 11, "print_footers.2": 12, "print_footers.3": 11, "list_file_contents.0": 4, "harness.0": 7}
 EXTL = {"sym_header_fill.0": 4, "sym_header_fill.1": 6, "safe_output.0": 58, "harness.0": 3, "harness.1": 7, "verif_malloc.0": 4, "verif_free.0": 4,
